@@ -157,16 +157,17 @@ pub fn get<'a>(fields: &'a [Field], path: &[usize]) -> &'a Field {
 /// Number of single-point mutations available at `path`.
 pub fn mutation_count(fields: &[Field], path: &[usize]) -> usize {
     match &get(fields, path).val {
-        Val::Varint(_) => 3 + INT_ALPHABET.len(),
-        Val::I64(_) | Val::I32(_) => 3 + 3,
-        Val::Bytes(_) => 3 + 8,
-        Val::Msg(_) => 3 + 2,
+        Val::Varint(_) => 4 + INT_ALPHABET.len(),
+        Val::I64(_) | Val::I32(_) => 4 + 3,
+        Val::Bytes(_) => 4 + 8,
+        Val::Msg(_) => 4 + 2,
     }
 }
 
-/// Applies mutation number `k` at `path`; returns a description. Mutations 0..3 are structural
-/// (remove the field, duplicate it, change its wire type), the rest replace the value by an
-/// element of its boundary alphabet.
+/// Applies mutation number `k` at `path`; returns a description. Mutations 0..4 are structural
+/// (remove the field, duplicate it, change its wire type, swap it with the next occurrence of the
+/// same field number - i.e. list a repeated field in another order), the rest replace the value by
+/// an element of its boundary alphabet.
 pub fn mutate(fields: &mut Vec<Field>, path: &[usize], k: usize) -> String {
     let (v, i) = get_mut(fields, path);
     let num = v[i].num;
@@ -189,9 +190,16 @@ pub fn mutate(fields: &mut Vec<Field>, path: &[usize], k: usize) -> String {
             v[i].val = nv;
             return format!("field {num} with another wire type");
         }
+        3 => {
+            if let Some(j) = (i + 1..v.len()).find(|j| v[*j].num == num) {
+                v.swap(i, j);
+                return format!("repeated field {num}: entries {i} and {j} swapped");
+            }
+            return format!("field {num} unchanged (not repeated)");
+        }
         _ => {}
     }
-    let k = k - 3;
+    let k = k - 4;
     let f = &mut v[i];
     match &mut f.val {
         Val::Varint(x) => {
